@@ -61,3 +61,7 @@ func (s *State) VerifSnapshot() VerifSnap {
 func VerifModeName(m int) string {
 	return [...]string{"loading", "normal", "command", "selection", "opening", "problem"}[m]
 }
+
+// VerifLockHeld reports whether the running controlled goroutine holds the UI lock
+// (always true outside an exploration, where nothing can be said).
+func (s *State) VerifLockHeld() bool { return s.m.HeldByCurrent() }
